@@ -9,6 +9,7 @@ import Dtn7.Model.NodeSpec
 import Dtn7.Lemmas.NodeC13
 import Dtn7.Lemmas.NodeBook
 import Dtn7.Lemmas.NodeDup
+import Dtn7.Lemmas.NodeBookAny
 import Dtn7.Gen.C13
 
 namespace Dtn7.Props.C13
@@ -131,12 +132,31 @@ theorem gen_mule :
 
 /-! ## Along every history -/
 
-/-- **`never_to_prev_node`**: for every routing algorithm (and the sensor-mule wrapper), every environment,
-every number of peers and every history of `Domain13` — the histories of C05's `Domain` in which
-applications attach no previous-node block and relayed bundles satisfy `seedsPrev` (spray: not a bundle
-of this node; binary spray: carries the BinarySprayBlock or is not a bundle of this node) — no algorithm-chosen transmission goes to the node named in the bundle's
-previous-node block. -/
-theorem never_to_prev_node (c : Cfg) (env : Env) (now : Nat)
+/-- The variant flags the regenerated facts select are `Cur` (as in `Dtn7.Props.C05.cur_of_gen`). -/
+theorem cur_of_gen (c : Cfg)
+    (h1 : c.seqFirst = Dtn7.Gen.C13.seqAssignedFirst) (h2 : c.skipStored = Dtn7.Gen.C13.sendBundleSkipsStored)
+    (h3 : c.expiryNow = Dtn7.Gen.C13.expiryCountsFromNow) (h4 : c.holdFix = Dtn7.Gen.C13.dispatchingHoldsRefused) :
+    Cur c := by
+  have g := gen_variant
+  exact ⟨by rw [h1]; exact g.1, by rw [h2]; exact g.2.1, by rw [h4]; exact g.2.2.2.2, by rw [h3]; exact g.2.2.1⟩
+
+/-- **`never_to_prev_node`** (FULL STRENGTH over histories): for the code as it is, for every routing algorithm
+(and the sensor-mule wrapper), every environment, every number of peers and EVERY history — any IDs, any
+number of submissions with one source and creation time, resubmissions, restarts anywhere — whose bundles
+satisfy `Bundles13` (applications attach no previous-node block; a relayed bundle that names a previous node
+satisfies `seedsPrev`: spray — not a bundle of this node; binary spray — carries the BinarySprayBlock or is
+not a bundle of this node): no algorithm-chosen transmission goes to the node named in the bundle's
+previous-node block. No hypothesis about IDs is left: `SendBundle` files under a free ID
+(`assignSeq_free`). -/
+theorem never_to_prev_node (c : Cfg) (hc : Cur c) (env : Env) (now : Nat)
+    (h : List Event) (hb : Bundles13 c h) :
+    firstFail (fun c _ o => returnFail c o) c (SpecSt.init now) 0 ((trace env (init c now) h).map obsOf) = none :=
+  prev_run_any c hc env h _ _ 0 hb (rinvF_init c now) (prevInv_init c now)
+
+/-- The same for every variant of the code (also the ones before the repairs of `SendBundle`), on the histories
+of `Domain13` (C05's old `Domain` — submissions with pairwise different (source, time), disjoint from the
+receptions — plus `Bundles13`). -/
+theorem never_to_prev_node_any_variant (c : Cfg) (env : Env) (now : Nat)
     (h : List Event) (hdom : Domain13 c h) :
     firstFail (fun c _ o => returnFail c o) c (SpecSt.init now) 0 ((trace env (init c now) h).map obsOf) = none :=
   prev_run c env h [] _ _ 0 (by simpa using hdom) (rinv_init c now) (prevInv_init c now)
